@@ -154,13 +154,18 @@ Proof. exact walk_open_agree_refuted_proof. Qed.
    does not fail, and at every path the destination shows the entry of the filtered view
    (same identity key; for regular files and hard links the SOURCE's bytes) and nothing where
    the filtered view has nothing.  [groups_coherent]: members of one link group of the source
-   carry the same bytes and mode (they are one inode).  [identity_faithful]: as in C02. *)
+   carry the same bytes and mode (they are one inode).  [identity_faithful]: as in C02.
+   [links_meta]: every announced hard-link entry carries the metadata (mode, uid, gid, size,
+   mtime, xattrs) of the entry it names — the receiver gives a new name the metadata of the inode
+   it joins, whatever was announced (true of a walk; a MapFunc must treat the members of a link
+   group alike). *)
 Theorem filtered_transfer_converges :
   forall pmatch mapfn c view (H : bytes -> bytes) (hdr : stat -> bytes) d (A : list AbsDest.entry),
     map_keeps_shape mapfn -> map_never_drops_dirs mapfn -> map_keeps_special mapfn ->
     wf_source view = true -> source_links_ok view = true -> groups_coherent view ->
     all_paths (nls_path pmatch c) view = true ->
     wf_listing (map fst A) -> identity_faithful d A (filtered_entries pmatch mapfn c view) ->
+    links_meta (sender_entries pmatch mapfn c view) ->
     let r := receive_abs H hdr Fresh d A (sender_entries pmatch mapfn c view) in
     ds_err r = false /\
     forall p, view_equiv (alookup p (ds_map r)) (efind p (filtered_entries pmatch mapfn c view)).
